@@ -33,6 +33,20 @@ def gen_cases(ctx):
         # spacings with digits below 1e-14 m (1.55 um / 34, 1 um / 30): the derived uniform spacing / time step must still be common to all descriptions
         s["spacing"] = [1.55e-6 / 34, 5e-8, 1e-6 / 30][i % 3]
         cases.append({"kind": "grids", "spec": s})
+    # odd cell counts (the quasi-uniform policy rejects them) with a slab pinned to an absolute physical coordinate: the uniform policy and
+    # explicit origin-centred edges must put it on the same cells
+    for i in range(ctx.pick(1, 3)):
+        n = [7, 6, 8]
+        a = i % 3
+        n[a] = [7, 9, 11][i % 3]
+        box = [[1, 4], [1, 4], [2, 5]]
+        coord = (-2.75 + i) * 5e-8          # -2.75 cells from the centre: a half-cell shift of the edges flips the nearest edge
+        cases.append({"kind": "grids", "grids": [None, "rect_uniform", "rect_centered"],
+                      "spec": {"shape": n, "spacing": 5e-8, "steps": 5, "thickness": 1,
+                               "bt": {"min_x": "periodic", "max_x": "periodic", "min_y": "pec", "max_y": "pmc", "min_z": "periodic", "max_z": "periodic"},
+                               "sources": [{"kind": "dipole", "cell": [3, 3, 3], "pol": 2}],
+                               "detectors": [{"kind": "field", "box": [[0, n[0]], [0, n[1]], [0, n[2]]], "name": "fd", "opts": {"exact_interpolation": False}}],
+                               "blocks": [{"box": box, "eps": 4.0, "real_lo": {"axis": a, "coord": coord}}]}})
     from props import C01
     for i in range(ctx.pick(2, 6)):
         c = C01.rand_case(ctx.rng, True, 4 * i)
@@ -46,11 +60,11 @@ def gen_cases(ctx):
 
 def run_cases(ctx, cases):
     gr = [c for c in cases if c["kind"] == "grids"]
-    flat = [{"spec": c["spec"], "grid": g} for c in gr for g in GRIDS]
+    flat = [{"spec": c["spec"], "grid": g} for c in gr for g in c.get("grids", GRIDS)]
     of = core.run_impl_sharded(IMPL, flat, shard=min(len(flat), 8), timeout=2400)
     oh = core.run_impl_sharded("yee_impl.py", [c for c in cases if c["kind"] == "hand"], jobs=3)
     it, ih = iter(of), iter(oh)
-    return [[next(it) for _ in GRIDS] if c["kind"] == "grids" else next(ih) for c in cases]
+    return [[next(it) for _ in c.get("grids", GRIDS)] if c["kind"] == "grids" else next(ih) for c in cases]
 
 
 def coq_expr(case, out):
@@ -69,7 +83,7 @@ def predicate(case, out):
         if "error" in o:
             return ("driver-error", o["error"] + o.get("trace", "")[-300:])
     base = out[0]
-    for g, o in zip(GRIDS[1:], out[1:]):
+    for g, o in zip(case.get("grids", GRIDS)[1:], out[1:]):
         if o["t"] != base["t"]:
             return (f"steps-differ:{g}", f"{g}: {o['t']} steps vs {base['t']}")
         for k in ["E", "H"] + list(base["det"]):
